@@ -9,6 +9,7 @@ import SlotVerif.Driver.SnapDrv
 import SlotVerif.Driver.EvDrv
 import SlotVerif.Driver.RunnerDrv
 import SlotVerif.Driver.ProofDrv
+import SlotVerif.Driver.UfwDrv
 /-! `svdriver`: reads one case per line `<suite> <body>`, prints one answer line per case. -/
 open SV.Drv
 
@@ -29,6 +30,7 @@ def dispatch (line : String) : String :=
     | "eg" => egRun body
     | "expl" => explRun body
     | "prog" => progRun body
+    | "ufw" => ufwRun body
     | "snap" => snapRun body
     | "ev" => evRun body
     | "runner" => runnerRun body
